@@ -63,3 +63,5 @@ func VerifBuildWebSocketURL(serverURL, joinCode, peerID, role string, maxReceive
 func VerifComputeParallelBudget(fileCount, requested, conns int, striping bool) (int, int) {
 	return computeParallelBudget(fileCount, requested, conns, striping)
 }
+
+func VerifBuildPathResolver(paths []string) (func(string) string, error) { return buildPathResolver(paths) }
